@@ -222,11 +222,12 @@ class Indentation(afmformats.AFMForceDistance):
             indentation depth and determining a plateau in the
             resulting Young's modulus (fitting parameter "E").
         """
-        if "preprocessing" in kwargs:
-            options = kwargs.get("preprocessing_options",
-                                 self.preprocessing_options)
-            self.apply_preprocessing(preprocessing=kwargs["preprocessing"],
-                                     options=options)
+        if "preprocessing" in kwargs or "preprocessing_options" in kwargs:
+            # (options given without steps belong to the current steps;
+            # `None` selects the current steps/options)
+            self.apply_preprocessing(
+                preprocessing=kwargs.get("preprocessing"),
+                options=kwargs.get("preprocessing_options"))
         # self.fit_properties is an instance of FitProperties that
         # stores previous fit kwargs. If the given kwargs are
         # different than in the previous fit, the following two
